@@ -1,6 +1,7 @@
 """C08 - arguments reach the task function unchanged and bound to the right parameters."""
 import copy
 import json
+import zlib
 
 import common as C
 
@@ -41,7 +42,13 @@ META = dict(
          "function whose body ran; non-trivial iff a called name had at least two different function definitions registered. "
          "A life-cycle case = a sequence of registrations, startup() / shutdown() events and calls on ONE InMemoryBroker object "
          "(constructor options, cast_types both ways) in ONE driver process, each call judged on its own with the configuration "
-         "the broker was constructed with; non-trivial iff some call is made after a shutdown of that object",
+         "the broker was constructed with; non-trivial iff some call is made after a shutdown of that object. "
+         "A redelivery case = a sequence of sends, REDELIVERIES of an already delivered wire message (same bytes object / equal "
+         "copy / AckableMessage) and re-sends under a fixed custom task id in ONE driver process (one worker Receiver, a Receiver "
+         "per delivery, or a started InMemoryBroker), the task functions changing their arguments in place after recording them; "
+         "every delivery judged on its own; non-trivial iff some delivery's bytes were delivered before and an earlier execution "
+         "of them changed a container argument in place. About one generated function in six (all families) changes its "
+         "arguments in place; the round-trip clause is judged on a decode before and a decode after every execution",
     trusted_base=["model: coq/theories/Params.v (hand-written transcription of parse_params, run_task's call assembly, CPython "
                   "argument binding, kicker._prepare_message, formatter composition)",
                   "parse_obj_as (pydantic) = Section variable `conv`, instantiated per case by a table of pydantic's own answers "
@@ -243,7 +250,20 @@ def gen_case(r, annpick=None, aimed=None):
     case["fmt"] = r.choice(["proxy", "proxy", "json"])
     case["ser"] = r.choice(["json", "json", "pickle"])
     gen_call(r, case, aimed)
+    derive_mutate(case)
     return case
+
+
+# what a task function may do with the values it was given: they are its own (decoded from the wire for this execution)
+MUTATIONS = ["grow", "shrink", "clear", "reverse", "overwrite", "sort"]
+
+
+def derive_mutate(case):
+    """about one generated function in six works on its arguments in place (after recording what arrived).  Drawn from a
+    hash of the case, not from the generator's random stream: the cases of every existing family stay what they were."""
+    h = zlib.crc32(json.dumps(case, sort_keys=True).encode())
+    if h % 6 == 0:
+        case["mutate"] = MUTATIONS[h // 6 % len(MUTATIONS)]
 
 
 def gen_call(r, case, aimed=None):
@@ -966,6 +986,202 @@ def lifecycle_table_cases():
     return out
 
 
+# --------------------------------------------------------------------------- groups of calls with redelivery / re-sends
+# One case = a SEQUENCE in one driver process (see the driver): sends, REDELIVERIES of a wire message that was already
+# delivered (at-least-once brokers redeliver un-acked messages: the receiver decodes the very same bytes again) and
+# re-sends of a call under a fixed custom task id (an idempotency key; same id + same arguments = the same bytes), on one
+# worker Receiver, a Receiver per delivery, or one started InMemoryBroker.  Most task functions of these groups work on
+# their arguments IN PLACE (pop / append / clear / reverse / sort / item assignment, all the way down, attributes of
+# models and dataclasses) after recording what arrived: the values are the function's own, decoded for this execution.
+# The property speaks about every invocation: each delivery is judged on its own by the unchanged oracle / model - what
+# an earlier execution did to ITS arguments must not be what a later delivery receives - and the round-trip clause is
+# judged on every decode (one before and one after each execution).
+RD_ANN_W = [(None, 40), ("Any", 18), ("X", 3), ("List[int]", 6), ("Dict[str,int]", 5), ("M1", 5), ("M2", 3), ("D1", 4), ("int", 6),
+            ("str", 3), ("Optional[int]", 3), ("List[M1]", 2), ("Union[int,str]", 2)]
+RD_IDS = ["sync-user-42", "job-1", "order:7/retry", ""]
+RD_HOW = ["same_object", "same_object", "equal_copy", "ackable", "ackable_copy"]
+
+
+def gen_container(r, depth=0):
+    k = r.random()
+    if depth >= 3 or k < (.0 if depth == 0 else .35):
+        return gen_json(r, 2)
+    if k < .7:
+        return [gen_container(r, depth + 1) for _ in range(r.choice([0, 1, 2, 2, 3, 4]))]
+    return {key: gen_container(r, depth + 1) for key in r.sample(["a", "b", "k", "rows", "attempts", "", "\u00fc"], r.choice([0, 1, 2, 2, 3]))}
+
+
+RD_AIMED = {None: lambda r: J(gen_container(r)), "Any": lambda r: J(gen_container(r)), "X": lambda r: J(gen_container(r))}
+
+
+def rd_annpick(q):
+    return wchoice(q, RD_ANN_W)
+
+
+def gen_redelivery_group(r):
+    conf = (r.choice(["proxy", "proxy", "json"]), r.choice(["json", "json", "json", "pickle"]), r.random() < .65)
+    inmem = r.random() < .35
+    rd = dict(path="inmemory" if inmem else "receiver", receiver=r.choice(["shared", "shared", "fresh"]),
+              broker=gen_broker_opts(r) if inmem else None)
+    chains, nid = [], 0
+    for _ in range(r.choice([1, 1, 2, 2, 3])):
+        owners = [ch[0] for ch in chains if "task" not in ch[0]]
+        if owners and r.random() < .3:                                 # the same task again, other arguments
+            o = r.choice(owners)
+            st = copy.deepcopy(dict(params=o["params"], ret=o["ret"]))
+            gen_call(r, st, RD_AIMED)
+            while has_type(st):
+                gen_call(r, st, RD_AIMED)
+            st.update({"async": o["async"], "task": o["_id"], "mutate": o.get("mutate")})
+        else:
+            st = gen_case(r, rd_annpick, RD_AIMED)
+            while has_type(st):
+                st = gen_case(r, rd_annpick, RD_AIMED)
+            st["mutate"] = r.choice(MUTATIONS) if r.random() < .85 else None
+        set_conf(st, conf)
+        if r.random() < .45:
+            st["task_id"] = r.choice(RD_IDS)
+        st["_id"] = nid
+        nid += 1
+        chain = [st]
+        chains.append(chain)
+        owner, sends = st.get("task", st["_id"]), [st]
+        for _ in range(r.choice([1, 1, 2])):
+            if "task_id" in st and r.random() < .5:                    # sent again under the same task id
+                f = copy.deepcopy(st)
+                if r.random() < .3:
+                    f["kicker"] = st["_id"]                            # through the very kicker object of the first send
+                if r.random() < .25:                                   # ... with other arguments
+                    gen_call(r, f, RD_AIMED)
+                    while has_type(f):
+                        gen_call(r, f, RD_AIMED)
+            else:                                                      # the broker delivers a message once more
+                src = r.choice(sends)
+                f = copy.deepcopy(src)
+                f.pop("kicker", None), f.pop("task_id", None)
+                f["again"] = src["_id"]
+                f["how"] = r.choice(RD_HOW[:3] if inmem else RD_HOW)
+            f["task"], f["_id"] = owner, nid
+            nid += 1
+            chain.append(f)
+            if "again" not in f:
+                sends.append(f)
+    # the chains interleaved (each keeps its own order; a chain starts after the one before it has started)
+    order, at, cur = [], [0] * len(chains), 0
+    while any(at[k] < len(ch) for k, ch in enumerate(chains)):
+        ok = [k for k, ch in enumerate(chains) if at[k] < len(ch) and (k == 0 or at[k - 1] > 0)]
+        cur = cur if cur in ok and r.random() < .55 else r.choice(ok)
+        order.append(chains[cur][at[cur]])
+        at[cur] += 1
+    pos = {x["_id"]: i for i, x in enumerate(order)}
+    steps = []
+    for x in order:
+        x = dict(x)
+        del x["_id"]
+        for k in ("task", "again", "kicker"):
+            if k in x:
+                x[k] = pos[x[k]]
+        if x.get("mutate") is None:
+            x.pop("mutate", None)
+        steps.append(x)
+    g = dict(redelivery=rd, steps=steps)
+    g["fmt"], g["ser"], g["validate"] = conf
+    return g
+
+
+RD_FNS = [
+    # the shapes of real handlers that consume their input: (parameters, positional values, keyword values)
+    ([P("items"), P("opts", default=True), P("tag", "kw", ann="Any", default=True)],
+     [[1, 2, 3]], {"opts": {"k": 1}, "tag": ["t"]}),
+    ([P("payload"), P("flags", ann="Any", default=True)], [{"rows": [3, 1, 2], "name": "x"}, ["a", "b"]], {}),
+    ([P("a", ann="int"), P("rows", ann="List[int]"), P("m", ann="M1"), P("extra", "kw", default=True)],
+     ["7", ["3", "1"], {"x": "1"}], {"extra": {"deep": {"l": [1, [2, {"z": []}]]}, "n": [None, 1.5, "s"]}}),
+]
+RD_PLACES = [("receiver", "shared", None), ("receiver", "fresh", None), ("inmemory", "shared", True), ("inmemory", "shared", False)]
+RD_PATTERNS = [
+    [("again", "same_object"), ("again", "same_object")], [("again", "equal_copy"), ("again", "ackable")],
+    [("resend", None), ("resend", "kicker")], [("resend", None), ("again", "same_object")],
+]
+
+
+def redelivery_table_cases():
+    """every handler of RD_FNS x where it runs (one worker Receiver / a Receiver per delivery / InMemoryBroker in place /
+    InMemoryBroker background task) x how the second and third delivery come about (the same bytes redelivered; an equal
+    copy, an AckableMessage; re-sent under the same custom task id, also through the same kicker object; re-sent and
+    then redelivered): three deliveries of one call; ways of changing the arguments, parsing on / off (2:1), sync /
+    async and formatter / serializer rotate"""
+    combos = [("proxy", "json"), ("json", "json"), ("proxy", "pickle"), ("proxy", "json")]
+    out, n = [], 0
+    for params, args, kw in RD_FNS:
+        for path, recv, inplace in RD_PLACES:
+            for pat in RD_PATTERNS:
+                n += 1
+                fmt, ser = combos[n % 4]
+                conf = (fmt, ser, n % 3 != 0)
+                base = dict(params=copy.deepcopy(params), ret=None, args=[J(v) for v in args],
+                            kwargs=[[k, J(v)] for k, v in kw.items()], mutate=MUTATIONS[n % len(MUTATIONS)], **{"async": n % 2 == 0})
+                set_conf(base, conf)
+                if any(k == "resend" for k, _ in pat):
+                    base["task_id"] = RD_IDS[n % 3]
+                steps = [base]
+                for k, how in pat:
+                    f = copy.deepcopy(base)
+                    f["task"] = 0
+                    if k == "again":
+                        f.pop("task_id", None)
+                        f["again"] = max(i for i, x in enumerate(steps) if "again" not in x)
+                        f["how"] = how if path == "receiver" or how != "ackable" else "equal_copy"
+                    elif how == "kicker":
+                        f["kicker"] = 0
+                    steps.append(f)
+                g = dict(redelivery=dict(path=path, receiver=recv,
+                                         broker=dict(await_inplace=inplace, propagate_exceptions=n % 2 == 0, max_async_tasks=[30, 1][n % 2],
+                                                     sync_tasks_pool_size=[4, 1][n % 2], max_stored_results=100) if path == "inmemory" else None),
+                         steps=steps)
+                g["fmt"], g["ser"], g["validate"] = conf
+                out.append(g)
+    return out
+
+
+def is_redelivery(case):
+    return "redelivery" in case
+
+
+def redelivery_kind(g, st):
+    if st.get("again") is not None:
+        return "redelivery(%s)" % st.get("how", "same_object")
+    if st.get("task_id") is None:
+        return "send"
+    earlier = [x for x in g["steps"][:g["steps"].index(st)] if x.get("again") is None and x.get("task_id") == st["task_id"]]
+    if not earlier:
+        return "send(custom task id)"
+    same = any(cj([x["args"], x["kwargs"]]) == cj([st["args"], st["kwargs"]]) for x in earlier)
+    return "sent_again_under_the_same_task_id(%s)%s" % ("same arguments" if same else "other arguments",
+                                                         "/same_kicker_object" if st.get("kicker") is not None else "")
+
+
+def redelivery_counts(rep, g, o):
+    """evidence for one redelivery group; non-trivial iff some delivery's bytes were delivered before in the process and an
+    earlier execution of them changed a container argument in place"""
+    rd = g["redelivery"]
+    rep.count("redelivery_group:cases")
+    rep.count("redelivery_group:steps", len(g["steps"]))
+    rep.count("redelivery_group:path:" + (rd["path"] + "/receiver_" + rd["receiver"] if rd["path"] == "receiver" else
+                                          "inmemory/" + ("await_inplace" if rd["broker"]["await_inplace"] else "background_task")))
+    rep.count("redelivery_group:parsing:" + ("on" if g["validate"] else "off"))
+    nt = False
+    for st, so in zip(g["steps"], o["steps"]):
+        rep.count("redelivery_call:" + redelivery_kind(g, st))
+        before = so.get("same_bytes_delivered_before")
+        if before is None:
+            continue
+        rep.count("redelivery_call:same_bytes_delivered_before:%s" % (before if before < 3 else "3+"))
+        if before and so.get("mutated_by_earlier_deliveries"):
+            rep.count("redelivery_call:an_earlier_execution_of_the_same_bytes_changed_its_arguments_in_place")
+            nt = True
+    return nt
+
+
 def is_lifecycle(case):
     return "life" in case
 
@@ -1142,6 +1358,11 @@ def oracle(case, o):
     nested = pf != df
     if not o["roundtrip_rest_eq"] or (not nested and not (o["roundtrip_eq"] and o["roundtrip_canon_eq"])) or o["wire"] != df:
         bad.append(("formatter.loads(formatter.dumps(m).message) differs from m", o["wire"], df))
+        return bad
+    # ... on every decode: the same bytes decoded once more after the task function ran (and did what it does to ITS values)
+    if "wire_after" in o and (not o["roundtrip_after_rest_eq"] or (not nested and not o["roundtrip_after_eq"]) or o["wire_after"] != df):
+        bad.append(("formatter.loads(formatter.dumps(m).message) differs from m when the same bytes are decoded again after the "
+                    "task function ran", o["wire_after"], df))
         return bad
     if not in_scope(case) or o["pybind"] is None:
         return bad
@@ -1407,6 +1628,10 @@ def explore(ctx, rep, cases, label, observe_only=False):
         rep.count("fmt:%s/%s" % (c["fmt"], c["ser"]))
         rep.count("fn:" + ("async" if c["async"] else "sync"))
         rep.count("scope:" + ("in" if in_scope(c) else "var_kinds(model only)"))
+        if c.get("mutate"):
+            rep.count("task_function_changes_its_arguments_in_place:" + c["mutate"])
+            if o.get("mutated"):
+                rep.count("task_function_changes_its_arguments_in_place:executions_that_changed_a_container_or_object")
         ne = sum(is_edge(p["ann"], sp) for p, sp in sent_pairs(c))
         if ne:
             rep.count("edge_value_for_annotation(constructor vs pydantic):cases")
@@ -1454,7 +1679,11 @@ def explore(ctx, rep, cases, label, observe_only=False):
             rep.case(c, False)
             rep.fail("driver crashed (treated as a failure, never skipped)", c, observed=o["_crash"][-600:])
             continue
-        if is_lifecycle(c):
+        if is_redelivery(c):
+            rep.case(c, redelivery_counts(rep, c, o))
+            for i, (st, so) in enumerate(zip(c["steps"], o["steps"])):
+                one(st, so, c, i)
+        elif is_lifecycle(c):
             rep.case(c, lifecycle_counts(rep, c, o))
             for i, (st, so) in enumerate(zip(c["steps"], o["steps"])):
                 one(st, so, c, i)
@@ -1528,12 +1757,24 @@ def run(ctx):
                                       "before the first shutdown: the pool is closed for good by it)"
                                       % (len(lt), len(LIFE_TABLE_PRE), len(LIFE_TABLE_MID), len(lgroups)))
     broken = explore(ctx, rep, lt + lgroups, "broker_life_cycle") or broken
+    dt = redelivery_table_cases()
+    r6 = ctx.sub_rng("redelivery")
+    dgroups = [gen_redelivery_group(r6) for _ in range(ctx.n(60, 2500))]
+    rep.extra["redelivery"] = ("%d table groups (%d handlers that consume their input x %d places (worker Receiver shared / per "
+                               "delivery, InMemoryBroker in place / background) x %d ways the 2nd and 3rd delivery come about: "
+                               "redelivered bytes, equal copy, AckableMessage, re-sent under the same custom task id, same kicker "
+                               "object) + %d random groups of 2-9 deliveries; task functions change their arguments in place after "
+                               "recording them (%s); every delivery judged on its own, round trip judged on a decode before and "
+                               "after every execution" % (len(dt), len(RD_FNS), len(RD_PLACES), len(RD_PATTERNS), len(dgroups),
+                                                          ", ".join(MUTATIONS)))
+    broken = explore(ctx, rep, dt + dgroups, "redelivery") or broken
     if (broken or any(not o["ok"] for o in rep.obligations)) and not rep.failures:
         r2 = ctx.sub_rng("search")
         explore(ctx, rep, [gen_case(r2) for _ in range(ctx.n(10000, 100000))] +
                 [gen_group(r2) for _ in range(ctx.n(500, 5000))] +
                 [gen_registry_group(r2) for _ in range(ctx.n(500, 5000))] +
-                [gen_lifecycle_group(r2) for _ in range(ctx.n(300, 3000))], "search")
+                [gen_lifecycle_group(r2) for _ in range(ctx.n(300, 3000))] +
+                [gen_redelivery_group(r2) for _ in range(ctx.n(300, 3000))], "search")
     return rep.finish()
 
 
@@ -1547,6 +1788,23 @@ def replay(ctx, path):
         return 1
     if not is_group(c):
         fails = replay_one(ctx, c, o, "replay")
+    elif is_redelivery(c):
+        rd = c["redelivery"]
+        print("a sequence of deliveries in one process; %s; parsing %s; formatter/serializer %s/%s" % (
+            "one worker Receiver for all of them" if rd["path"] == "receiver" and rd["receiver"] == "shared" else
+            "a new Receiver(broker) for every delivery" if rd["path"] == "receiver" else
+            "ONE started InMemoryBroker(%s)" % ", ".join("%s=%s" % kv for kv in sorted(rd["broker"].items())),
+            "on" if c["validate"] else "off", c["fmt"], c["ser"]))
+        fails = []
+        for i, (st, so) in enumerate(zip(c["steps"], o["steps"])):
+            print("--- delivery %d: task t%d%s; %s; the same bytes were delivered %s time(s) before, those executions changed %s "
+                  "container(s) / object(s) of their arguments in place" % (
+                      i, st.get("task", i), " (its body changes its arguments in place: %s)" % st["mutate"] if st.get("mutate") else "",
+                      "the broker message of delivery %d delivered once more (%s)" % (st["again"], st.get("how")) if st.get("again") is not None
+                      else "sent with task id %r%s" % (st["task_id"], " through the kicker object of delivery %d" % st["kicker"]
+                                                       if st.get("kicker") is not None else "") if st.get("task_id") is not None else "sent",
+                      so.get("same_bytes_delivered_before"), so.get("mutated_by_earlier_deliveries")))
+            fails += replay_one(ctx, st, so, "replay%d" % i)
     elif is_lifecycle(c):
         print("a sequence in one process on ONE InMemoryBroker(cast_types=%s, %s); formatter/serializer %s/%s; receiver objects "
               "seen by the calls: %s" % (c["validate"], ", ".join("%s=%s" % kv for kv in sorted(c["broker"].items())), c["fmt"], c["ser"],
